@@ -11,6 +11,7 @@ package main
 
 import (
 	"fmt"
+	"os"
 	"go/token"
 	"go/types"
 	"regexp"
@@ -157,9 +158,19 @@ func readsMemory(e *Expr) bool {
 		return true
 	case "field":
 		// a field of a struct *value* (call result, by-value parameter, local copy) is not a memory read
-		if len(e.Args) == 1 && e.Args[0].Type != nil {
-			if _, isPtr := e.Args[0].Type.Underlying().(*types.Pointer); !isPtr {
-				return readsMemory(e.Args[0])
+		if len(e.Args) == 1 {
+			t := e.Args[0].Type
+			if t == nil && e.Args[0].Val != nil {
+				t = e.Args[0].Val.Type()
+			}
+			if t != nil {
+				if _, isPtr := t.Underlying().(*types.Pointer); !isPtr {
+					switch e.Args[0].Op {
+					case "call", "extract", "param", "const", "zero":
+						return false // a component of an SSA value: fixed once the value exists
+					}
+					return readsMemory(e.Args[0])
+				}
 			}
 		}
 		return true
@@ -176,6 +187,16 @@ func readsMemory(e *Expr) bool {
 func (pe *pathExplorer) AtomName(cond ssa.Value, pol bool) (string, bool) {
 	a := normAtom(pe.pv.Of(cond), pol)
 	name := a.E.String()
+	if os.Getenv("DBG_ATOM") != "" {
+		var dump func(e *Expr, d int)
+		dump = func(e *Expr, d int) {
+			fmt.Printf("%*s%s name=%s type=%v val=%T\n", d*2, "", e.Op, e.Name, e.Type, e.Val)
+			for _, x := range e.Args {
+				dump(x, d+1)
+			}
+		}
+		dump(a.E, 0)
+	}
 	if in, ok := cond.(ssa.Instruction); ok && readsMemory(a.E) {
 		name = fmt.Sprintf("%s@%d", name, pe.epoch(in))
 	}
